@@ -127,7 +127,7 @@ void SmFailed::toXml(QXmlStreamWriter *w) const
 {
     w->writeStartElement(QSL65("failed"));
     w->writeDefaultNamespace(toString65(ns_stream_management));
-    if (error) {
+    if (error && *error != QXmppStanza::Error::NoCondition) {
         writeEmptyElement(w, conditionToString(*error), ns_stanza);
     }
     w->writeEndElement();
